@@ -62,8 +62,10 @@ def _child_job(job):
 
 
 def signature(result):
+    """What the property speaks about: file names, contents, content hashes of a successful build.  A failing build
+    yields no files; only the exception TYPE is part of the signature (message wording may legitimately embed a set)."""
     if 'error' in result:
-        return ['error'] + result['error']
+        return ['error', result['error'][0]]
     return [[f[0], f[1], f[2]] for f in result['files']]
 
 
@@ -98,6 +100,7 @@ def run_check(tier, seed, n_cases, hashseeds, nperm):
     if rep.harness_errors:
         return rep.finish()
     evaluations = 0
+    error_text_varies = 0
     order_sensitive = set()
     distinct = set()
     hash_checked = 0
@@ -108,10 +111,13 @@ def run_check(tier, seed, n_cases, hashseeds, nperm):
         ref_sig = signature(ref)
         orders_seen = set()
         violated = False
+        messages = set()
         for hs in hashseeds:
             for pi, res in enumerate(per_seed[hs][case['id']]):
                 evaluations += 1
                 orders_seen.add(json.dumps(res['set_orders']))
+                if 'error' in res:
+                    messages.add(res['error'][1])
                 if 'files' in res:
                     for f in res['files']:
                         hash_checked += 1
@@ -132,10 +138,12 @@ def run_check(tier, seed, n_cases, hashseeds, nperm):
                     ra = run_child(a[0], detail_cases, keep_contents=True)['out'][0]['results'][a[1]]
                     rb = run_child(b[0], detail_cases, keep_contents=True)['out'][0]['results'][b[1]]
                     diff = first_difference(ra, rb)
-                    cls = 'purity:error-text-depends-on-hash-seed-or-set-order' if 'error' in ra or 'error' in rb else \
+                    cls = 'purity:outcome-depends-on-hash-seed-or-set-order' if 'error' in ra or 'error' in rb else \
                         'purity:output-depends-on-hash-seed-or-set-order'
                     rep.add_violation(cls, f'PYTHONHASHSEED={a[0]}/order#{a[1]} vs PYTHONHASHSEED={b[0]}/order#{b[1]}: {diff}',
                                       {'world': 'C', 'case': case, 'pairs': [list(a), list(b)], 'difference': diff})
+        if len(messages) > 1:
+            error_text_varies += 1
         if len(orders_seen) > 1:
             order_sensitive.add(case['id'])
             distinct.add(json.dumps(ref_sig))
@@ -155,7 +163,8 @@ def run_check(tier, seed, n_cases, hashseeds, nperm):
         'order_sensitive_cases': len(order_sensitive), 'content_hashes_checked_against_md5': hash_checked,
         'fault_kinds_fired': {'hash_seed_changed': len(hashseeds) - 1, 'set_construction_order_permuted': n_cases * (nperm - 1),
                               'configuration_with_unknown_port_names': sum(1 for c in cases if c['kind'] != 'valid')},
-        'probes': {'set_iteration_order_actually_differed': len(order_sensitive)},
+        'probes': {'set_iteration_order_actually_differed': len(order_sensitive),
+                   'failing_builds_whose_error_text_varied_between_evaluations (not judged: the statement is about files)': error_text_varies},
         'simulated_time': 'not applicable (no clock)', 'distinct_interleavings': 0,
         'seeds': f'VERIF_SEED={seed}',
         'run_digest': __import__('hashlib').sha256(json.dumps([[c['id'], [[signature(r) for r in per_seed[hs][c['id']]] for hs in hashseeds]] for c in cases]).encode()).hexdigest(),
